@@ -42,7 +42,8 @@ def cases(draw, nums=("frac",), with_nodes=None):
             pool += [lo + (hi - lo) * t for t in (F(1, 2), F(1, 4), F(2, 3))]
         m = draw(st.integers(1, min(nt, 4)))
         nodes = sorted(draw(st.lists(st.sampled_from(pool), min_size=m, max_size=m, unique=True)))
-    return {"src": src, "Ut": Ut, "pt": pt, "nodes": nodes, "mode": mode}
+    return {"src": src, "Ut": Ut, "pt": pt, "nodes": nodes, "mode": mode,
+            "decoy": draw(st.integers(0, 2)) == 0, "via_fit": draw(st.integers(0, 3)) == 0}
 
 
 def check(case, out):
@@ -74,8 +75,25 @@ def check(case, out):
             out.exclude("rank-deficient-nodes")
             return
     snap = lib.snapshot(source)
+    if case.get("decoy"):
+        # history: the same pair of knot vectors was fitted before with another node setting (stale caches)
+        out.cls("decoy-fit-first")
+        decoy = lib.Curve([lib.conv_knot(u, num) for u in case["Ut"]])
+        try:
+            if nodes:
+                decoy.fit_curve(source)
+            else:
+                decoy.fit_curve(source, [lib.conv_knot(Ut[0], num), lib.conv_knot(Ut[-1], num)][: max(1, min(2, nt))])
+        except Exception as exc0:
+            if not lib.from_library(exc0):
+                raise
+    use_fit = case.get("via_fit")
     try:
-        err = target.fit_curve(source) if not nodes else target.fit_curve(source, lnodes)
+        if use_fit:
+            out.cls("via=fit()")
+            err = target.fit(source) if not nodes else target.fit(source, lnodes)
+        else:
+            err = target.fit_curve(source) if not nodes else target.fit_curve(source, lnodes)
     except ZeroDivisionError:
         out.exclude("singular-system")
         return
